@@ -160,6 +160,22 @@ func (g *gen) program() *Program {
 		n.Body = body
 		p.Nodes = append(p.Nodes, n)
 	}
+	if !g.cfg.EnterProbe && g.tp.Chance(6, "emptynode") {
+		// a node with an EMPTY body, reached by redirecting one of the jumps: entering it ends the dialogue
+		var jumps []*Stmt
+		for _, n := range p.Nodes {
+			walkStmts(n.Body, func(s *Stmt) {
+				if s.K == sJump && s.Target != "Nowhere" {
+					jumps = append(jumps, s)
+				}
+			})
+		}
+		if len(jumps) > 0 {
+			jumps[g.tp.Int(0, len(jumps)-1, "emptynodejump")].Target = "EmptyNode"
+			p.Nodes = append(p.Nodes, &Node{Title: "EmptyNode"})
+			g.titles = append(g.titles, "EmptyNode")
+		}
+	}
 	return p
 }
 
